@@ -250,7 +250,7 @@ pub fn specs() -> Vec<CheckSpec> {
         CheckSpec {
             id: "C09",
             generate: gen_w4,
-            runs_quick: 3_000,
+            runs_quick: 8_000,
             runs_thorough: 200_000,
             rule: "complete simulations (1..200 steps) of every composition of the built-in agent types, single- and multi-asset, combined through the derive macros; digest of all orders, trades, recorded level-2 history and per-step volumes compared across: two in-process runs of the shipped runner, the documented manual loop driven by the harness's seeded generator, a separate OS process under perturbations (progress bar on, shifted heap, other environment / cwd, stderr null / pipe / file, non-main thread), and (guaranteed-activity configurations) 16 distinct seeds not all equal. Non-trivial = at least 2 steps",
             finalize: None,
@@ -260,7 +260,7 @@ pub fn specs() -> Vec<CheckSpec> {
             stub: NO_STUB,
             assumptions: &["agent parameters consistent with the environment", "one OS, one build: cross-machine reproducibility is out of reach of a single sandbox", "sampling, not enumeration"],
             explanation: "replay determinism: same seed and parameters must give bit-identical observable output under process-level perturbations",
-            expected_probes: &["in_process_rerun", "manual_loop_with_seam_rng", "separate_process", "progress_bar_branch", "shifted_heap", "non_main_thread", "other_environment", "seeds_differ_checked"],
+            expected_probes: &["in_process_rerun", "manual_loop_with_seam_rng", "separate_process", "progress_bar_branch", "shifted_heap", "non_main_thread", "other_environment", "seeds_differ_checked", "seed_domain_end_checked"],
         },
         CheckSpec {
             id: "C10",
